@@ -26,6 +26,17 @@ def streamTable (scenario : String) : Option String :=
         let v := if i + 1 < k then "nil" else if i + 1 = k then canon (retryExhausted .eof) else "eof"
         s!"send{i + 1}={v}"
       " ".intercalate (["new=nil"] ++ sends ++ [s!"recv=st:{codeUnavailable}"])
+  else if scenario.startsWith "retryctx." then
+    -- every attempt refused with a retryable status; the context ends inside shouldRetry's backoff sleep
+    match scenario.splitOn "." with
+    | [_, api, how] =>
+      let r := canon (retryBackoffCtxDone (if how = "deadline" then .ctxDeadline else .ctxCanceled))
+      if how ≠ "deadline" ∧ how ≠ "cancel" then none
+      else if api = "invoke" then some s!"invoke={r}"
+      else if api = "send" then some s!"new=nil send={r}"
+      else if api = "recv" then some s!"new=nil send=nil recv={r}"
+      else none
+    | _ => none
   else if scenario.startsWith "srvst." then (scenario.drop 6).toString.toNat?.map fun c => tail s!"st:{c}"
   else none
 
@@ -58,7 +69,7 @@ def monitor (fs : List String) (impl : String) : String :=
     let bad := (impl.splitOn " ").filter fun item =>
       match item.splitOn "=" with
       | [k, v] =>
-        if k = "new" then !(v = "nil" || isStatus v)
+        if k = "new" ∨ k = "invoke" then !(v = "nil" || isStatus v)
         else !(v = "nil" || v = "eof" || isStatus v)
       | _ => true
     if bad.isEmpty then "ok" else s!"VIOL non-status error returned to the application: {bad}"
